@@ -338,6 +338,28 @@ pub fn model(spec: &CmdSpec, intent: &Intent, env: &BTreeMap<String, Vec<u8>>) -
         let mut m = BTreeMap::new();
         // explicit set and raw values known so far (CLI and env), for default_value_if referents
         let mut explicit_now: BTreeMap<String, Vec<Vec<u8>>> = BTreeMap::new();
+        // POSIX-style overrides act on command-line occurrences only, in argv order, in both directions:
+        // an occurrence of X removes every earlier occurrence of an argument that overrides or is overridden by X
+        let overrides_pair = |p: &str, q: &str| visible[li].iter().any(|a| (a.id == p && a.overrides.iter().any(|o| o == q)) || (a.id == q && a.overrides.iter().any(|o| o == p)));
+        let mut effective: Vec<Occ> = Vec::new();
+        for o in &lint.occs {
+            effective.retain(|e| e.arg == o.arg || !overrides_pair(&e.arg, &o.arg));
+            effective.push(o.clone());
+        }
+        // values are parsed when the occurrence is read, so a bad value is reported even if the
+        // occurrence is overridden later
+        for o in &lint.occs {
+            if !effective.iter().any(|e| std::ptr::eq(e as *const Occ, o as *const Occ)) {
+                if let Some(a) = visible[li].iter().find(|a| a.id == o.arg) {
+                    for v in occ_values(a, o) {
+                        if let Err(why) = value_ok(a, &v) {
+                            ex.errors.push((if why == "non-utf8" { "value-non-utf8" } else { "value" }, a.id.clone()));
+                        }
+                    }
+                }
+            }
+        }
+        let lint = &LevelIntent { occs: effective, sub: lint.sub };
         for a in &visible[li] {
             let occs: Vec<&Occ> = lint.occs.iter().filter(|o| o.arg == a.id).collect();
             if !occs.is_empty() {
@@ -363,34 +385,54 @@ pub fn model(spec: &CmdSpec, intent: &Intent, env: &BTreeMap<String, Vec<u8>>) -
         if chain[li].has(CmdSetting::ArgRequiredElseHelp) && !has_sub && n_explicit == 0 {
             ex.errors.push(("help-on-missing", chain[li].name.clone()));
         }
-        for a in &chain[li].args {
+        let lvl = chain[li];
+        // direct conflicts of an argument: its own, its overrides, and what its groups bring
+        let dc = |id: &str| -> Vec<String> {
+            let mut v: Vec<String> = Vec::new();
+            if let Some(a) = lvl.args.iter().find(|a| a.id == id) {
+                v.extend(a.conflicts.iter().cloned());
+                v.extend(a.overrides.iter().cloned());
+            }
+            for g in lvl.groups.iter().filter(|g| g.args.iter().any(|m| m == id)) {
+                v.extend(g.conflicts.iter().cloned());
+                if !g.multiple {
+                    v.extend(g.args.iter().filter(|m| *m != id).cloned());
+                }
+            }
+            v
+        };
+        let conflicting = |p: &str, q: &str| p != q && (dc(p).iter().any(|c| c == q) || dc(q).iter().any(|c| c == p));
+        let explicit_ids: Vec<&str> = visible[li].iter().filter(|a| x(&a.id)).map(|a| a.id.as_str()).collect();
+        let exclusive_present = lvl.args.iter().any(|a| a.exclusive && x(&a.id));
+        for a in &lvl.args {
             if a.exclusive && x(&a.id) && n_explicit > 1 {
                 ex.errors.push(("conflict", a.id.clone()));
             }
-            for c in &a.conflicts {
-                if x(&a.id) && x(c) {
-                    ex.errors.push(("conflict", format!("{}+{}", a.id, c)));
-                }
-            }
-            for r in &a.requires {
-                if x(&a.id) && !x(r) {
-                    ex.errors.push(("missing", r.clone()));
-                }
-            }
-            if a.required && !x(&a.id) {
-                ex.errors.push(("missing", a.id.clone()));
-            }
-            if !a.required_unless.is_empty() && !x(&a.id) && !a.required_unless.iter().any(|u| x(u)) {
-                ex.errors.push(("missing", a.id.clone()));
+            if x(&a.id) && explicit_ids.iter().any(|o| conflicting(&a.id, o)) {
+                ex.errors.push(("conflict", a.id.clone()));
             }
         }
-        for g in &chain[li].groups {
-            let present = g.args.iter().filter(|id| x(id)).count();
-            if g.required && present == 0 {
-                ex.errors.push(("missing", g.id.clone()));
+        // a missing required argument is excused when something explicit conflicts with it
+        let excused = |id: &str| explicit_ids.iter().any(|o| conflicting(id, o));
+        if !exclusive_present {
+            for a in &lvl.args {
+                for r in &a.requires {
+                    if x(&a.id) && !x(r) && !excused(r) {
+                        ex.errors.push(("missing", r.clone()));
+                    }
+                }
+                if a.required && !x(&a.id) && !excused(&a.id) {
+                    ex.errors.push(("missing", a.id.clone()));
+                }
+                if !a.required_unless.is_empty() && !x(&a.id) && !a.required_unless.iter().any(|u| x(u)) {
+                    ex.errors.push(("missing", a.id.clone()));
+                }
             }
-            if !g.multiple && present > 1 {
-                ex.errors.push(("conflict", g.id.clone()));
+        }
+        // a required GROUP is demanded even when an exclusive argument is present
+        for g in &lvl.groups {
+            if g.required && !g.args.iter().any(|id| x(id)) {
+                ex.errors.push(("missing", g.id.clone()));
             }
         }
         locals.push(m);
@@ -625,26 +667,51 @@ fn gen_level(rng: &mut Rng, n: &mut usize, shorts: &mut Vec<char>, prefix: &str,
             }
         }
     }
-    // one relation among non-global args
+    // up to two relation items among non-global args
     let locals: Vec<usize> = c.args.iter().enumerate().filter(|(_, a)| !a.global).map(|(i, _)| i).collect();
-    if locals.len() >= 2 && rng.chance(1, 2) {
+    let n_rel = if locals.len() >= 2 { rng.weighted(&[4, 4, 2]) } else { 0 };
+    for _ in 0..n_rel {
         let i = *rng.pick(&locals);
         let mut j = *rng.pick(&locals);
         if i == j {
             j = *locals.iter().find(|x| **x != i).unwrap();
         }
         let (ida, idb) = (c.args[i].id.clone(), c.args[j].id.clone());
-        match rng.below(7) {
+        match rng.below(9) {
             0 => c.args[i].conflicts.push(idb),
             1 => c.args[i].requires.push(idb),
-            2 => c.args[i].required = true,
-            3 => c.args[i].required_unless.push(idb),
+            2 => {
+                if c.args[i].required_unless.is_empty() {
+                    c.args[i].required = true
+                }
+            }
+            3 => {
+                if !c.args[i].required {
+                    c.args[i].required_unless.push(idb)
+                }
+            }
             4 => {
-                if !c.args.iter().any(|a| a.global) {
+                if !c.args.iter().any(|a| a.global) && !c.args[i].required {
                     c.args[i].exclusive = true
                 }
             }
-            5 => c.groups.push(GroupSpec { id: format!("g{:03}", *n), args: vec![ida, idb], required: rng.coin(), multiple: rng.coin(), requires: vec![], conflicts: vec![] }),
+            5 | 6 => {
+                // (groups outlive the removal of an overridden member, which the model does not describe:
+                // overrides and groups are not combined at one level)
+                if c.groups.is_empty() && c.args.iter().all(|a| a.overrides.is_empty()) {
+                    let third: Vec<String> = c.args.iter().filter(|a| !a.global && a.id != ida && a.id != idb).map(|a| a.id.clone()).collect();
+                    let conflicts = match (rng.chance(1, 2), rng.pick_opt(&third)) {
+                        (true, Some(t)) => vec![t.clone()],
+                        _ => vec![],
+                    };
+                    c.groups.push(GroupSpec { id: format!("g{:03}", *n), args: vec![ida, idb], required: rng.coin(), multiple: rng.coin(), requires: vec![], conflicts });
+                }
+            }
+            7 => {
+                if c.groups.is_empty() && !c.args[i].overrides.contains(&idb) && !c.args[j].overrides.contains(&ida) {
+                    c.args[i].overrides.push(idb)
+                }
+            }
             _ => c.set(CmdSetting::ArgRequiredElseHelp),
         }
     }
